@@ -100,6 +100,17 @@ var c05BatchABI = map[string][2]string{
 	"gas_estimate":  {"FEstimate", "uint256"},
 }
 
+// the four message methods: ABI input name (tuple components dotted) -> the message field the CONTRACT means by it
+var c05MsgABI = map[string]string{
+	"args.logic_contract_address": "FContract", "args.payload": "FPayload",
+	"fee_args.relayer_fee": "FRelayerFee", "fee_args.community_fee": "FCommunityFee", "fee_args.security_fee": "FSecurityFee",
+	"fee_args.fee_payer_paloma_address": "FFeePayer",
+	"message_id": "FMsgId", "deadline": "FDeadline", "relayer": "FRelayer", "gas_estimate": "FEstimate",
+	"_deployer": "FDeployer", "_bytecode": "FBytecode",
+	"new_valset.validators": "FValidators", "new_valset.powers": "FPowers", "new_valset.valset_id": "FValsetId",
+	"update_compass_args": "FCalls",
+}
+
 var c05pkgs = map[string]bool{"bytes": true, "big": true, "common": true, "crypto": true, "abi": true, "slice": true, "whoops": true, "binary": true, "math": true}
 
 type c05fn struct {
@@ -804,6 +815,38 @@ func extractC05(c *Ctx) error {
 		c.Info(prefix+"_abi", m.Sig)
 		return nil
 	}
+	// the slots the ABI's input NAMES stand for (so that an argument packed at the position of another input of the
+	// same type -- deadline where message_id is expected -- does not go unnoticed)
+	var namedSlot func(path string, t abi.Type) (*c05slot, error)
+	namedSlot = func(path string, t abi.Type) (*c05slot, error) {
+		if fld, ok := c05MsgABI[path]; ok {
+			return &c05slot{field: fld}, nil
+		}
+		if t.T == abi.TupleTy {
+			s := &c05slot{sub: []*c05slot{}}
+			for i, cn := range t.TupleRawNames {
+				x, err := namedSlot(path+"."+cn, *t.TupleElems[i])
+				if err != nil {
+					return nil, err
+				}
+				s.sub = append(s.sub, x)
+			}
+			return s, nil
+		}
+		return nil, fmt.Errorf("abi input %s (%s) is not a known message field", path, t.String())
+	}
+	emitNamed := func(prefix string, ins abi.Arguments) error {
+		var slots []string
+		for _, in := range ins {
+			s, err := namedSlot(in.Name, in.Type)
+			if err != nil {
+				return err
+			}
+			slots = append(slots, s.coq())
+		}
+		c.P("Definition %s_abi_named_slots : list slot := [%s].", prefix, strings.Join(slots, "; "))
+		return nil
+	}
 	c.P("Definition compass_abi_path : string := %s.", CoqStr(compassABIPath))
 	// the struct types go-ethereum maps onto the ABI tuples by field name
 	structFields := func(name string) string {
@@ -969,6 +1012,9 @@ func extractC05(c *Ctx) error {
 		c.Info(d.prefix+"_delivered", strings.Join(flat, ","))
 		if err := emitABI(d.prefix, am, ins); err != nil {
 			errs = append(errs, err.Error())
+		}
+		if err := emitNamed(d.prefix, ins); err != nil {
+			errs = append(errs, fmt.Sprintf("%s: %v", mname, err))
 		}
 	}
 	// submit_batch is packed by the relayer (pigeon), not in this repository: its delivered arguments are
